@@ -36,9 +36,12 @@ def consts(pids, objs, maxinc, maxup, sigs=(9,), setters=("nice",), fixes=None, 
 # ---------------------------------------------------------------------------
 
 class Adapter:
-    def __init__(self, w, psutil, btime):
+    def __init__(self, w, psutil, btime, tick=TICK, base=0):
         self.w, self.ps = w, psutil
         w.btime = btime
+        # start times of the processes: model tick x `tick` kernel ticks after `base` (machines that
+        # have been up for years recycle PIDs a single tick apart just the same)
+        self.tick, self.base = tick, base
         self.objs = {}
         self.hashes = {}
 
@@ -110,7 +113,7 @@ class Adapter:
         nk, ns = len(w.kill_log), len(w.set_log)
         if op == "k_spawn":
             w.next_inc = e["inc"]
-            pr = w.spawn(e["pid"], start=e["start"] * TICK, ppid=0)
+            pr = w.spawn(e["pid"], start=self.base + e["start"] * self.tick, ppid=0)
             # every other incarnation is multi-threaded: thread IDs are IDs of the same namespace,
             # and nothing may be delivered to them either
             if (e["pid"] + e["inc"]) % 2:
@@ -215,6 +218,8 @@ class Adapter:
                 return "equal objects hash differently"
             if e["res"] and ha != hb:
                 return "same process, different hash()"
+            if not e["res"] and a.pid == b.pid and ha == hb:
+                return "two owners of one PID hash alike (hash() %d)" % ha
         elif op == "boot_time":
             got = int(ps.boot_time())
         elif op == "iter":
@@ -240,7 +245,7 @@ def run_events(job):
     """Forked child: replay a list of events from the initial state."""
     btime, events = job
     w, ps = template()
-    ad = Adapter(w, ps, btime)
+    ad = Adapter(w, ps, btime, *((1, 4 * 10 ** 9) if len(events) % 3 == 1 else (TICK, 0)))
     for i, e in enumerate(events):
         m = ad.step(e)
         if m is not None:
